@@ -110,7 +110,20 @@ func genC02(t *rapid.T, tier string) interface{} {
 	if tier == "thorough" {
 		pr.MaxBlocks = 60
 	}
-	return genHistory(t, &pr)
+	p := genHistory(t, &pr)
+	// 1 history in 5 starts without module accounts (they are created on first use) and opens with transfers
+	// to module addresses: whatever an account at such an address holds must stay accounted for
+	if rapid.IntRange(0, 4).Draw(t, "lazymodules") == 0 {
+		p.Gen.LazyModules = true
+		n := rapid.IntRange(1, 3).Draw(t, "earlysends")
+		var txs []hTx
+		for i := 0; i < n; i++ {
+			txs = append(txs, hTx{Kind: "send", From: rapid.IntRange(0, simPoolSize-1).Draw(t, "esfrom"), To: 100 + rapid.IntRange(0, 3).Draw(t, "esmod"),
+				Amt: int64(rapid.IntRange(1, 5000).Draw(t, "esamt")), SignWith: -1, KeyInSig: true, Entropy: int64(8800 + i)})
+		}
+		p.Blocks = append([]hBlock{{DTSec: 1, Proposer: 0, Txs: txs}}, p.Blocks...)
+	}
+	return p
 }
 
 func execC02(prog interface{}, c *Case) *Violation {
